@@ -8,6 +8,7 @@ from jaqalpaq.core.algorithm.visitor import Visitor
 from jaqalpaq.core import circuitbuilder
 from jaqalpaq.core.register import Register, NamedQubit
 from jaqalpaq.core.constant import Constant
+from jaqalpaq.core.parameter import AnnotatedValue
 
 
 def fill_in_let(circuit, override_dict=None):
@@ -30,6 +31,7 @@ class LetFiller(Visitor):
     def __init__(self, override_dict):
         super().__init__()
         self.override_dict = override_dict or {}
+        self.register_names = set()
 
     ##
     # Visitor Methods
@@ -44,6 +46,7 @@ class LetFiller(Visitor):
         """Return a new Circuit with all Constants replaced in the
         body. The new circuit will retain the same information in the
         circuit.constants attribute."""
+        self.register_names = set(circuit.registers)
         body = self.visit(circuit.body)
         statements = body[1:]
         reg_visitor = RegisterVisitor(self.override_dict)
@@ -96,17 +99,28 @@ class LetFiller(Visitor):
 
     def visit_NamedQubit(self, qubit):
         """Visit a named qubit that may possibly have its index
-        remapped. Doing so will change the name of the qubit."""
-        if isinstance(qubit.alias_index, Constant):
-            new_index = self.resolve_constant(qubit.alias_index)
-            new_from = self.visit(qubit.alias_from)
-            return new_from[new_index]
-        else:
-            return qubit
+        remapped. Doing so will change the name of the qubit.
+
+        The qubit is re-expressed by name, so that the rebuilt circuit
+        refers to the rebuilt register or alias (whose size and bounds
+        have had their constants filled in) rather than to the old one."""
+        if qubit.name in self.register_names:
+            # A single-qubit map alias used as a gate argument.
+            return qubit.name
+        index = qubit.alias_index
+        if isinstance(index, Constant):
+            index = self.resolve_constant(index)
+        elif isinstance(index, AnnotatedValue):
+            # A macro parameter: look it up by name in the macro's context.
+            index = index.name
+        return ("array_item", qubit.alias_from.name, index)
 
     def visit_Register(self, reg):
         """Visit either a fundamental register or a map alias. Either may
         contain lurking let constants."""
+        if reg.name in self.register_names:
+            # A register used as a gate argument: refer to the rebuilt one.
+            return reg.name
         if reg.fundamental:
             if isinstance(reg.size, Constant):
                 new_size = self.resolve_constant(reg.size)
@@ -114,18 +128,16 @@ class LetFiller(Visitor):
             else:
                 return reg
         else:
-            new_alias_from = self.visit(reg.alias_from)
             if reg.alias_slice is None:
-                new_alias_slice = None
-            else:
-                new_alias_slice = slice(
-                    self.visit(reg.alias_slice.start),
-                    self.visit(reg.alias_slice.stop),
-                    self.visit(reg.alias_slice.step),
-                )
-            return Register(
-                reg.name, alias_from=new_alias_from, alias_slice=new_alias_slice
-            )
+                return ["map", reg.name, reg.alias_from.name]
+            return [
+                "map",
+                reg.name,
+                reg.alias_from.name,
+                self.visit(reg.alias_slice.start),
+                self.visit(reg.alias_slice.stop),
+                self.visit(reg.alias_slice.step),
+            ]
 
     def visit_Macro(self, macro):
         """Remove any references to let constants in this macro body while
@@ -169,7 +181,6 @@ class RegisterVisitor(LetFiller):
         remapped. Doing so will change the name of the qubit."""
         if isinstance(qubit.alias_index, Constant):
             new_index = self.resolve_constant(qubit.alias_index)
-            new_from = self.visit(qubit.alias_from)
-            return NamedQubit(qubit.name, new_from, new_index)
         else:
-            return qubit
+            new_index = qubit.alias_index
+        return ["map", qubit.name, qubit.alias_from.name, new_index]
